@@ -218,6 +218,29 @@ DoRun(ev) ==
            ELSE /\ divs' = Append(divs, Div("listing / position marker", [op |-> "listing", lines |-> expLines, marker |-> expMarker, next |-> nextText,
                                                                            fields |-> (IF okLines THEN {} ELSE {"lines"}) \cup (IF okMarker THEN {} ELSE {"marker"})], ev))
                 /\ mode' = "skip" /\ UNCHANGED <<cov, sess, cur, stats>>
+    ELSE IF ev.e = "View" THEN
+        \* the two-column view the REPL prints after a command: remaining operations | stack, each entry cut to its column
+        LET s0 == MkSession(cur)
+            left == ViewLeft(sess)
+            right == ViewRight(sess)
+            expL == [i \in 1..Len(left) |-> Cut(left[i], ev.lcap)]
+            expR == [i \in 1..Len(right) |-> Cut(right[i], ev.rcap)]
+            obsL == [i \in 1..Len(ev.left) |-> ev.left[i]]
+            obsR == [i \in 1..Len(ev.right) |-> ev.right[i]]
+            listing == ExpectedListing(s0)
+            \* the line of what the next step executes, numbered by its position in the listing (section headers are shown without number)
+            IsHeader(x) == x \in {"<<< scriptPubKey >>>", "<<< P2SH script >>>"}
+            expCur == IF ev.hascur THEN (IF sess.seq < Len(listing) THEN (IF IsHeader(listing[sess.seq + 1]) THEN <<-2, listing[sess.seq + 1]>> ELSE <<sess.seq, listing[sess.seq + 1]>>)
+                                         ELSE <<-1, "">>)
+                      ELSE <<ev.curn, ev.curtext>>
+            okL == obsL = expL /\ WidthOK(ev.lcap, left)
+            okR == obsR = expR /\ WidthOK(ev.rcap, right)
+            okC == <<ev.curn, ev.curtext>> = expCur
+        IN IF okL /\ okR /\ okC THEN /\ cov' = cov \cup {<<"view", IF sess.tce.active THEN "commitment" ELSE IF sess.done THEN "finished" ELSE "running">>}
+                                       /\ UNCHANGED <<divs, sess, cur, mode, stats>>
+           ELSE /\ divs' = Append(divs, Div("two-column view", [op |-> "view", left |-> expL, right |-> expR, cur |-> expCur,
+                                                                  fields |-> (IF okL THEN {} ELSE {"left"}) \cup (IF okR THEN {} ELSE {"right"}) \cup (IF okC THEN {} ELSE {"current line"})], ev))
+                /\ mode' = "skip" /\ UNCHANGED <<cov, sess, cur, stats>>
     ELSE IF ev.e = "Run" THEN Judge(ev, Continue(sess), "run", TRUE)
     ELSE IF ev.e = "CliRun" THEN
         \* one non-interactive run of the real binary: exit status, terminating signal, stdout lines, stderr text
